@@ -241,57 +241,68 @@ def run_case(case):
                 rhs_mode = "static"
             fit = ["dlite", "taubinSVD"][int(rng.integers(2))]
             frame = solver.frames[when]
-            full = fmatrix.ForceMatrix(frame, externals_to_use="none", term="none", metadata={}, timeseries=solver.mesh,
-                                       angle_limit=np.inf, circle_fit_method=fit)
-            if full.matrix.shape[0] == 0:
-                continue
-            for cls, lim in _limits(rng, full):
-                method = None if (rng.random() < 0.8 or len(frame.internal_big_edges) > 60) else "lsq"
-                CTX["cur"] = cur = {"full": full}
-                kw = {"circle_fit_method": fit}
-                if lim is not None:
-                    kw["angle_limit"] = lim
-                skw = {"allow_negatives": bool(rng.integers(2))}
-                if rhs_mode == "velocity":
-                    skw["b_matrix"] = "velocity"
-                    skw["adimensional_velocity"] = bool(rng.integers(2))
-                ic = None
-                if method == "lsq":
-                    skw["method"] = "lsq"
-                    skw["allow_negatives"] = False
-                    if rng.random() < 0.7:
-                        ic = list(rng.uniform(0.5, 1.5, len(frame.internal_big_edges)))
-                        skw["initial_condition"] = ic
-                        ic_copy = list(ic)
-                try:
-                    solver.build_force_matrix(when=when, **kw)
-                    solver.solve_stress(when=when, **skw)
-                except Exception as exc:
-                    import traceback
-                    fm = solver.force_matrices.get(when)
-                    nex = len(frame.internal_big_edges) - len(fm.big_edges_to_use) if fm is not None else -1
-                    mech = "solve-raises"
-                    if method == "lsq" and nex > 0 and isinstance(exc, (AttributeError, TypeError)):
-                        mech = "F-LSQ-EXCLUDED"
-                    mon.fail(mech, "the restricted system is solved", exc=repr(exc)[:200], limit=None if lim is None else float(lim),
-                             cls=cls, method=method, excluded=nex, tb=traceback.format_exc()[-400:])
+            for rep in range(2):
+                if rep == 1:
+                    if rhs_mode != "static" or case["seed"][2] % 3 != 0:
+                        break
+                    # the SAME frame after its vertices moved in place (smoothing, drift correction): openings measured
+                    # for the old geometry must not decide the exclusions of the new one
+                    sp_ = min(np.hypot(e_.v1.x - e_.v2.x, e_.v1.y - e_.v2.y) for e_ in frame.edges.values())
+                    for v_ in frame.vertices.values():
+                        v_.x = float(v_.x + rng.normal(0, 0.04 * sp_))
+                        v_.y = float(v_.y + rng.normal(0, 0.04 * sp_))
+                    hist["moved-in-place"] = hist.get("moved-in-place", 0) + 1
+                full = fmatrix.ForceMatrix(frame, externals_to_use="none", term="none", metadata={}, timeseries=solver.mesh,
+                                           angle_limit=np.inf, circle_fit_method=fit)
+                if full.matrix.shape[0] == 0:
+                    break
+                for cls, lim in _limits(rng, full):
+                    method = None if (rng.random() < 0.8 or len(frame.internal_big_edges) > 60) else "lsq"
+                    CTX["cur"] = cur = {"full": full}
+                    kw = {"circle_fit_method": fit}
+                    if lim is not None:
+                        kw["angle_limit"] = lim
+                    skw = {"allow_negatives": bool(rng.integers(2))}
+                    if rhs_mode == "velocity":
+                        skw["b_matrix"] = "velocity"
+                        skw["adimensional_velocity"] = bool(rng.integers(2))
+                    ic = None
+                    if method == "lsq":
+                        skw["method"] = "lsq"
+                        skw["allow_negatives"] = False
+                        if rng.random() < 0.7:
+                            ic = list(rng.uniform(0.5, 1.5, len(frame.internal_big_edges)))
+                            skw["initial_condition"] = ic
+                            ic_copy = list(ic)
+                    try:
+                        solver.build_force_matrix(when=when, **kw)
+                        solver.solve_stress(when=when, **skw)
+                    except Exception as exc:
+                        import traceback
+                        fm = solver.force_matrices.get(when)
+                        nex = len(frame.internal_big_edges) - len(fm.big_edges_to_use) if fm is not None else -1
+                        mech = "solve-raises"
+                        if method == "lsq" and nex > 0 and isinstance(exc, (AttributeError, TypeError)):
+                            mech = "F-LSQ-EXCLUDED"
+                        mon.fail(mech, "the restricted system is solved", exc=repr(exc)[:200], limit=None if lim is None else float(lim),
+                                 cls=cls, method=method, excluded=nex, tb=traceback.format_exc()[-400:])
+                        CTX.pop("cur", None)
+                        continue
                     CTX.pop("cur", None)
-                    continue
-                CTX.pop("cur", None)
-                if ic is not None and ic != ic_copy:
-                    mon.fail("initial-condition-mutated", "the user's initial condition is not modified", cls=cls)
-                ex = cur.get("excluded", 0)
-                hist["with-exclusion" if ex else "no-exclusion"] = hist.get("with-exclusion" if ex else "no-exclusion", 0) + 1
-                hist["method:" + (method or "default")] = hist.get("method:" + (method or "default"), 0) + 1
-                hist["rhs:" + rhs_mode] = hist.get("rhs:" + rhs_mode, 0) + 1
-                if cls == "default":
-                    hist["default-limit"] = hist.get("default-limit", 0) + 1
-                    if ex:
-                        mon.fail("default-excludes", "with the default limit nothing is excluded", excluded=ex)
-                if cur.get("nonunique"):
-                    hist["restricted-system-not-unique"] = hist.get("restricted-system-not-unique", 0) + 1
-                metrics["diff_over_tol"] = max(metrics.get("diff_over_tol", 0.0), cur.get("worst", 0.0))
-                sigs.append([fam, cur.get("n_internal"), ex, cur.get("flagged"), cls, method or "default", rhs_mode])
+                    if ic is not None and ic != ic_copy:
+                        mon.fail("initial-condition-mutated", "the user's initial condition is not modified", cls=cls)
+                    ex = cur.get("excluded", 0)
+                    hist["with-exclusion" if ex else "no-exclusion"] = hist.get("with-exclusion" if ex else "no-exclusion", 0) + 1
+                    hist["method:" + (method or "default")] = hist.get("method:" + (method or "default"), 0) + 1
+                    hist["rhs:" + rhs_mode] = hist.get("rhs:" + rhs_mode, 0) + 1
+                    if cls == "default":
+                        hist["default-limit"] = hist.get("default-limit", 0) + 1
+                        if ex:
+                            mon.fail("default-excludes", "with the default limit nothing is excluded", excluded=ex)
+                    if cur.get("nonunique"):
+                        hist["restricted-system-not-unique"] = hist.get("restricted-system-not-unique", 0) + 1
+                    metrics["diff_over_tol"] = max(metrics.get("diff_over_tol", 0.0), cur.get("worst", 0.0))
+                    sigs.append([fam, cur.get("n_internal"), ex, cur.get("flagged"), cls, method or "default", rhs_mode])
         if cap.unraisable:
             mon.fail("unraisable", "no destructor raises", events=cap.unraisable[:2])
     res = {"counters": dict(mon.evals), "hist": hist, "metrics": metrics}
